@@ -147,6 +147,26 @@ def gen_and_defaults(rng, depth):
     return p
 
 
+def gen_eqmix(rng):
+    """(pattern, target): a list / tuple-in-list pattern that separates ==-equal values of different
+    type (1 / True, 0 / False) and a list mixing them -- element-wise means every element"""
+    nb = {'op': 'not', 'form': 'ctor', 'c': [{'op': 'type', 't': 'bool'}]}
+    alts = rng.sample([{'op': 'type', 't': 'bool'}, nb, {'op': 'type', 't': 'str'}, lit({'k': 'str', 's': 'a'}),
+                       {'op': 'and', 'form': 'ctor', 'hasdef': False, 'def': {'k': 'none'}, 'c': [{'op': 'type', 't': 'int'}, nb]},
+                       {'op': 'm', 'cmp': '==', 'rhs': {'k': 'int', 'i': rng.choice([0, 1])}},
+                       {'op': 'tuple', 'elems': [{'op': 'type', 't': 'bool'}]}], rng.randint(1, 2))
+    pool = [{'k': 'int', 'i': 0}, {'k': 'int', 'i': 1}, {'k': 'bool', 'b': True}, {'k': 'bool', 'b': False},
+            {'k': 'str', 's': 'a'}, {'k': 'c', 'cls': 'tuple', 'items': [{'k': 'int', 'i': 1}]},
+            {'k': 'c', 'cls': 'tuple', 'items': [{'k': 'bool', 'b': True}]}]
+    items = [dict(rng.choice(pool[:4] if rng.random() < 0.8 else pool)) for _ in range(rng.randint(2, 5))]
+    p = {'op': 'list', 'alts': alts}
+    t = {'k': 'c', 'cls': 'list', 'items': items}
+    if rng.random() < 0.3:                      # one level down
+        p = {'op': 'dict', 'items': [[{'op': 'type', 't': 'str'}, p]]}
+        t = {'k': 'c', 'cls': 'dict', 'items': [{'key': {'k': 'str', 's': 'a'}, 'val': t}]}
+    return p, t
+
+
 def gen_pattern(rng, depth):
     if depth <= 0 or rng.random() < 0.2:
         return gen_leaf(rng)
